@@ -220,9 +220,10 @@ Proof. vm_compute. repeat split; reflexivity. Qed.
 (* ================================================================== proxy *)
 (* with the perfect failure detector (mapping fd[_] via PerfectFD) and NUM_SERVERS < FAIL = 100 (a server's id is
    the body of its answers, so id 100 would be indistinguishable from FAIL) *)
-From PGV Require C16.Proxy C16.ProxyProofs.
+From PGV Require C16.Proxy C16.ProxyProofs C16.ProxyProofs2.
 Module Px := PGV.C16.Proxy.
 Module PxP := PGV.C16.ProxyProofs.
+Module PxP2 := PGV.C16.ProxyProofs2.
 
 (* the spec's invariant ProxyOK, for every configuration, every interleaving, every resolution of the
    `either`s (in particular every crash sequence of backends: mayFail) *)
@@ -247,11 +248,22 @@ Theorem proxy_fd_accurate : forall g evs j, Px.NS g < Px.FAIL ->
 Proof. intros g evs j Hb. exact (PxP.fd_accurate_lemma g Hb _ (PxP.exec_reachable g evs) j). Qed.
 Print Assumptions proxy_fd_accurate.
 
-(* full statement still open for proxy: no assertion of the spec fails (needs the request/response matching
-   invariant); checked by the implementation-side oracle only *)
-Definition proxy_assertion_free_statement : Prop := forall g evs e,
-  Px.NS g >= 1 -> Px.NS g < Px.FAIL ->
+(* no assertion of the spec fails (message routing asserts of proxy / servers / clients, `assert enabled` of
+   ReliableFIFOLink.read, and the client's `resp.id = reqId`) and no action is ill-typed, in any reachable state, for any
+   event, for every configuration (either failure-detector mapping: the invariant does not mention fd) *)
+Theorem proxy_assertion_free : forall g evs e,
   Px.step g (Px.exec g evs) e <> Px.AssertFail /\ Px.step g (Px.exec g evs) e <> Px.TypeError.
+Proof. intros g evs e. exact (PxP2.safe_lemma g _ e (PxP.exec_reachable g evs)). Qed.
+Print Assumptions proxy_assertion_free.
+
+(* while a client waits, its request is in exactly one place: the proxy's mailbox, the proxy's hands, or answered in
+   the client's mailbox; a client that does not wait has nothing outstanding *)
+Theorem proxy_one_outstanding : forall g evs c, Px.NS g + 1 <= c <= Px.NS g + Px.NC g ->
+  let s := Px.exec g evs in
+  PxP2.cntf c (Px.queue s (Px.ProxyID g) Px.REQ) + PxP2.held s c + List.length (Px.queue s c Px.RESP)
+  = PxP2.waiting (Px.cpc_ s c).
+Proof. intros g evs c Hc. exact (PxP2.one_outstanding_lemma g _ (PxP.exec_reachable g evs) c Hc). Qed.
+Print Assumptions proxy_one_outstanding.
 
 (* non-vacuity: one server, one client; the server fails at once, the proxy skips it and reports FAIL *)
 Example proxy_nonvacuous :
@@ -316,9 +328,10 @@ Proof. vm_compute. repeat split; reflexivity. Qed.
 (* ================================================================== nestedcrdtimpl *)
 (* the generated archetype ACRDTResource with the grow-only counter the deployment plugs into the spec's CONSTANT
    operators, driven by the spec's Node process *)
-From PGV Require C16.Nested C16.NestedProofs.
+From PGV Require C16.Nested C16.NestedProofs C16.NestedProofs2.
 Module Ne := PGV.C16.Nested.
 Module NeP := PGV.C16.NestedProofs.
+Module NeP2 := PGV.C16.NestedProofs2.
 
 (* the spec's MonotonicState: in every step (every configuration, every interleaving, every branch of the `either`,
    every target of the `with`) no component of any replica's state decreases *)
@@ -346,12 +359,32 @@ Theorem nested_state_sanity_as_written_refuted :
 Proof. exact NeP.state_sanity_as_written_refuted_lemma. Qed.
 Print Assumptions nested_state_sanity_as_written_refuted.
 
-(* full statements not proved for nestedcrdtimpl (checked by the implementation-side oracle on every walk): the bound
-   StateSanity intends — no replica counts more than the writes the nodes have issued — and assertion freedom *)
-Definition nested_state_sanity_intended_statement : Prop :=
-  forall g evs, Ne.state_sanity_intended g (Ne.exec g evs) = true.
-Definition nested_assertion_free_statement : Prop :=
-  forall g evs e, Ne.step g (Ne.exec g evs) e <> Ne.AssertFail /\ Ne.step g (Ne.exec g evs) e <> Ne.TypeError.
+(* the bound StateSanity evidently intends, for every configuration and every interleaving: no replica shows more
+   than the writes the nodes have issued (pending + achieved, summed as a bag) *)
+Theorem nested_state_sanity_intended : forall g evs r,
+  Ne.VIEW g (Ne.st (Ne.exec g evs) r) <= Ne.total_writes g (Ne.exec g evs).
+Proof. intros g evs. exact (NeP2.state_sanity_intended_lemma g _ (NeP.exec_reachable g evs)). Qed.
+Print Assumptions nested_state_sanity_intended.
+
+Theorem nested_state_sanity_intended_bool : forall g evs, Ne.state_sanity_intended g (Ne.exec g evs) = true.
+Proof. intros g evs. exact (NeP2.state_sanity_intended_bool g _ (NeP.exec_reachable g evs)). Qed.
+Print Assumptions nested_state_sanity_intended_bool.
+
+(* a replica's own component is bounded by its node's writes, and nobody knows more about it than the replica itself;
+   the request/acknowledgement handshake and the write accounting hold for every node *)
+Theorem nested_invariants : forall g evs, NeP2.MInv (Ne.exec g evs) /\ NeP2.NInv g (Ne.exec g evs).
+Proof. intros g evs. exact (NeP2.invariants_reachable g _ (NeP.exec_reachable g evs)). Qed.
+Print Assumptions nested_invariants.
+
+(* the Node process's assertions (the acknowledgement has the expected type) never fail *)
+Theorem nested_node_assertion_free : forall g evs n br, 1 <= n <= Ne.K g ->
+  Ne.node_step g (Ne.exec g evs) n br <> Ne.AssertFail.
+Proof. intros g evs n br Hn. exact (NeP2.node_assertion_free_lemma g _ n br (NeP.exec_reachable g evs) Hn). Qed.
+Print Assumptions nested_node_assertion_free.
+
+(* not proved: absence of TypeError in ACRDTResource's send (the chosen target is a resource id) — oracle only *)
+Definition nested_type_safe_statement : Prop :=
+  forall g evs e, Ne.step g (Ne.exec g evs) e <> Ne.TypeError.
 
 Example nested_nonvacuous :
   let g := Ne.mkCfg 2 1 1 in
